@@ -2,6 +2,7 @@ package gen
 
 import (
 	"math/rand/v2"
+	"strconv"
 
 	"verifharness/ref"
 )
@@ -41,6 +42,23 @@ var litStrings = []string{"a", "b", "abc", "x", "foo", "a b", "", "s*", "?", "1"
 
 func (g *ExprGen) litScalar(like *ref.V) *ref.V {
 	r := g.R
+	if like != nil && like.IsScalar() && r.IntN(10) == 0 {
+		// the same text under another type: 1 vs "1", true vs "true", null vs "null"
+		switch like.K {
+		case ref.Int, ref.Bool, ref.Null:
+			return ref.StrV(like.JSON())
+		case ref.Str:
+			switch like.S {
+			case "true", "false":
+				return ref.BoolV(like.S == "true")
+			case "null":
+				return ref.NullV()
+			}
+			if n, err := strconv.ParseInt(like.S, 10, 32); err == nil && strconv.FormatInt(n, 10) == like.S {
+				return ref.IntV(n)
+			}
+		}
+	}
 	if like != nil && like.IsScalar() && r.IntN(3) > 0 {
 		switch like.K {
 		case ref.Int:
@@ -154,12 +172,52 @@ func (g *ExprGen) pathStep(v *ref.V) *ref.Expr {
 	}
 }
 
+// streamSlice: when the stream holds several sequences of different lengths, sometimes a slice
+// whose bounds mean something different for each of them (omitted = that node's own length,
+// negative = counted from that node's end).
+func (g *ExprGen) streamSlice(cur []*ref.V) *ref.Expr {
+	if len(cur) < 2 || g.R.IntN(3) > 0 {
+		return nil
+	}
+	min, max := -1, -1
+	for _, v := range cur {
+		if v.K != ref.Seq {
+			return nil
+		}
+		if min < 0 || len(v.A) < min {
+			min = len(v.A)
+		}
+		if len(v.A) > max {
+			max = len(v.A)
+		}
+	}
+	if min == max {
+		return nil
+	}
+	e := &ref.Expr{Op: ref.OpSlice}
+	switch g.R.IntN(4) {
+	case 0, 1: // .[a:]
+		a := g.R.IntN(min + 1)
+		e.I = &a
+	case 2: // .[-a:]
+		a := -1 - g.R.IntN(max)
+		e.I = &a
+	default: // .[:-b]
+		b := -g.R.IntN(max + 1)
+		e.J = &b
+	}
+	return e
+}
+
 // path builds a chain of 1..n traversal steps following the sample.
 func (g *ExprGen) path(in []*ref.V, n int) *ref.Expr {
 	var e *ref.Expr
 	cur := in
 	for i := 0; i < n; i++ {
 		step := g.pathStep(first(cur))
+		if s := g.streamSlice(cur); s != nil {
+			step = s
+		}
 		if e == nil {
 			e = step
 		} else {
@@ -473,7 +531,11 @@ func (g *ExprGen) Gen(in []*ref.V, depth int) *ref.Expr {
 			rr = g.unary(mid, depth-1)
 		case 2:
 			// postfix traversal right after a bracketed expression / function: (e)[0], f(x).a
-			pe := ref.Pipe(l, g.pathStep(first(mid)))
+			st := g.pathStep(first(mid))
+			if s := g.streamSlice(mid); s != nil {
+				st = s
+			}
+			pe := ref.Pipe(l, st)
 			pe.Post = true
 			return pe
 		default:
